@@ -42,7 +42,8 @@ def bounds(tier):
   return dict(classes=list(harness.PE_CLASSES), level_sets=[LEVELS[k] for k in ((1, 2, 3, 4) if tier == 'quick' else (1, 2, 3, 4, 5))],
               grids='cubic-dealiased M=7 (dry) / (7,8,36,18) (moist, cloud); real + padded fast layout',
               orography=['none', 'degree-2'], tracer_sets=['minimal', 'plus two passive tracers'], reference_profiles=5,
-              state_lattice='depth 2, lmax=1 (depth 3 on one configuration%s)' % ('' if tier == 'quick' else ' per class'))
+              state_lattice='depth 2, lmax=1 (depth 3 on one configuration%s)' % ('' if tier == 'quick' else ' per class'),
+              top_wavenumber_states='depth-2 lattice over the lmax=1 alphabet + excitations of every field at l = L-2 (3 orders m, top and bottom level), moisture / tracer fields with signal at l = L-2; metamorphic oracle only')
 
 
 def units(tier, seed):
@@ -60,6 +61,13 @@ def units(tier, seed):
               continue
             for p in pal:
               us.append(dict(cls=cls, K=K, shape=shape, impl=impl, orog=orog, extra=extra, depth=2, palette=p))
+    # states with signal at the highest retained total wavenumber l = L-2 in every field and in the moisture fields
+    # (admissible states; products alias there, so only the metamorphic oracle applies)
+    for K in ((3,) if tier == 'quick' else (2, 3, 4)):
+      for impl in ('real', ['fast', 2, True, True]):
+        if tier == 'quick' and impl != 'real' and not moist:
+          continue
+        us.append(dict(cls=cls, K=K, shape=shape, impl=impl, orog=True, extra=(tier == 'thorough'), depth=2, palette=pal[0], top=True))
     deep = (3,) if tier == 'quick' and cls in ('PrimitiveEquations', 'MoistPrimitiveEquationsWithCloudMoisture') else ((3,) if tier == 'thorough' else ())
     for K in deep:
       n = len(harness.pe_alphabet(K, 1, shape[0]))
@@ -117,6 +125,12 @@ def work(unit, rec):
     names += (['tracer_a', 'tracer_b'] if moist else ['specific_humidity', 'tracer_b'])
   pal = unit['palette']
   alphabet = harness.pe_alphabet(K, 1, M)
+  top = bool(unit.get('top'))
+  if top:
+    for field in ('vorticity', 'divergence', 'temperature', 'lnps'):
+      for k in ((0,) if field == 'lnps' else sorted({0, K - 1})):
+        for i in (0, 1, 2 * M - 2):
+          alphabet.append((field, k, i, L - 2))
   msets = harness.multisets(len(alphabet), unit['depth'])
   if 'start' in unit:
     msets = msets[unit['start']:unit['stop']]
@@ -124,8 +138,12 @@ def work(unit, rec):
   st = harness.states_from_multisets(alphabet, msets, K, M, L, pal)
   T_abs = tabs(K)
   tr1 = _tracer_fields(names, K, M, L)
+  if top:
+    for j, n in enumerate(names):
+      amp = float(np.abs(tr1[n][:, 1:, :]).max() or np.abs(tr1[n]).max()) * 0.5
+      tr1[n][K // 2, 1, L - 2] += amp; tr1[n][0, 0, L - 2] -= 0.5 * amp; tr1[n][K - 1, 2 * M - 2, L - 2] += 0.25 * amp
   tracers = {k: np.broadcast_to(v, (B,) + v.shape).copy() for k, v in tr1.items()}
-  cfg_key = [cls, K, list(shape), str(unit['impl']), unit['orog'], unit['extra'], unit['depth'], unit.get('start', 0)]
+  cfg_key = [cls, K, list(shape), str(unit['impl']), unit['orog'], unit['extra'], unit['depth'], unit.get('start', 0)] + (['top_wavenumber'] if top else [])
   results = []
   profs = profiles(K)
   for tref in profs:
@@ -167,7 +185,7 @@ def work(unit, rec):
       rec.close(ra['tracers'][n], rb['tracers'][n], scale=max(1.0, float(np.abs(tr1[n]).max())), C=1e5, site='tref_invariance', key=key,
                 sig={'equation': cls}, extra={'field': 'tracer:' + n})
   # ---- profile-free reference model (dry / moist) -----------------------------------------------
-  if not cloud:
+  if not cloud and not top:
     ref = harness.ref_pe_for(shape, bnds, specs, degree=1, moist=moist, **(dict(nlat=40, nlon=48) if moist else {}))
     temp_abs = st['temperature'].copy(); temp_abs[:, :, 0, 0] += harness.SQRT4PI * T_abs
     passive = {k: v for k, v in tracers.items() if k != 'specific_humidity' or not moist}
